@@ -1,6 +1,7 @@
 package main
 
 import (
+	"regexp/syntax"
 	"fmt"
 	"go/token"
 	"go/types"
@@ -180,7 +181,19 @@ func c17(c *Ctx) {
 				// element of an array of anonymous structs: collect stores into its fields
 				var flag string
 				var fields []string
+				// the element's fields are stored directly, or into a temporary literal that is then copied in
+				var refs []ssa.Instruction
+				refs = append(refs, referrers(ia)...)
 				for _, rf := range referrers(ia) {
+					if st, ok := rf.(*ssa.Store); ok && st.Addr == ssa.Value(ia) {
+						if ld, isLd := st.Val.(*ssa.UnOp); isLd && ld.Op == token.MUL {
+							if tmp, isAl := ld.X.(*ssa.Alloc); isAl {
+								refs = append(refs, referrers(tmp)...)
+							}
+						}
+					}
+				}
+				for _, rf := range refs {
 					fa, ok := rf.(*ssa.FieldAddr)
 					if !ok {
 						continue
@@ -193,7 +206,11 @@ func c17(c *Ctx) {
 						if f := subtypeFlagOf(st.Val); f != "" {
 							flag = f
 						} else {
-							for _, l := range loadsOf(st.Val) {
+							sv := st.Val
+							if mi, isMI := sv.(*ssa.MakeInterface); isMI {
+								sv = mi.X // a value column of type interface{} (formatted with Sprintf)
+							}
+							for _, l := range loadsOf(sv) {
 								if l.T == "Timer" {
 									fields = append(fields, l.F)
 								}
@@ -212,6 +229,17 @@ func c17(c *Ctx) {
 				}
 				if flag == "" {
 					return
+				}
+				{
+					seenF := map[string]bool{}
+					var uniq []string
+					for _, f := range fields {
+						if !seenF[f] {
+							seenF[f] = true
+							uniq = append(uniq, f)
+						}
+					}
+					fields = uniq
 				}
 				want, known := subMetricTable[flag]
 				if !known {
@@ -671,6 +699,88 @@ func c17(c *Ctx) {
 			}
 		}
 		r.Check("percentile-name-split-sites", n >= 1, token.NoPos, fmt.Sprintf("%d sites take a percentile name apart at '_'", n))
+	})
+
+	c.Rule("C17.R13", "graphite keeps what a series name may contain: the characters normalizeMetricName deletes are exactly those outside [A-Za-z0-9_.-] ('/' becomes '-', white space '_'): distinct series must not collapse onto one path (the deleted class is computed from the regular expression, not compared as text)", 2, func(r *Rule) {
+		nf := w.Func("pkg/backends/graphite", "normalizeMetricName")
+		if nf == nil {
+			r.Unresolved("graphite.normalizeMetricName")
+			return
+		}
+		c.SawFunc(FuncName(nf))
+		// the regular expressions used: package-level variables initialised with regexp.MustCompile(<constant>)
+		pats := map[string]string{}
+		if sp := w.SSAPkgs[Mod+"/pkg/backends/graphite"]; sp != nil {
+			if init := sp.Func("init"); init != nil {
+				eachInstr(init, func(in ssa.Instruction) {
+					st, ok := in.(*ssa.Store)
+					if !ok {
+						return
+					}
+					g, isG := st.Addr.(*ssa.Global)
+					cl, isC := st.Val.(*ssa.Call)
+					if !isG || !isC || !strings.HasPrefix(calleeName(cl), "regexp.MustCompile") {
+						return
+					}
+					if p, isS := constString(cl.Call.Args[0]); isS {
+						pats[g.Name()] = p
+					}
+				})
+			}
+		}
+		deleted := 0
+		for _, cl := range callsIn(nf) {
+			name := calleeName(cl)
+			if !strings.HasPrefix(name, "(*regexp.Regexp).ReplaceAll") {
+				continue
+			}
+			a := cl.Common().Args
+			ld, isLd := a[0].(*ssa.UnOp)
+			if !isLd {
+				continue
+			}
+			g, isG := ld.X.(*ssa.Global)
+			if !isG {
+				continue
+			}
+			// a deletion: the replacement is nil / empty
+			repl := a[len(a)-1]
+			empty := isNilConst(repl)
+			if s2, isS := constString(repl); isS && s2 == "" {
+				empty = true
+			}
+			if !empty {
+				continue
+			}
+			deleted++
+			re, err := syntax.Parse(pats[g.Name()], syntax.Perl)
+			if err != nil || pats[g.Name()] == "" {
+				r.Fail("graphite:deleted-class", cl.Pos(), "the pattern of "+g.Name()+" is not a constant that parses")
+				continue
+			}
+			re = re.Simplify()
+			var wrong []string
+			if re.Op != syntax.OpCharClass {
+				r.Fail("graphite:deleted-class", cl.Pos(), "the deleting pattern "+pats[g.Name()]+" is not a single character class")
+				continue
+			}
+			inClass := func(b rune) bool {
+				for i := 0; i+1 < len(re.Rune); i += 2 {
+					if b >= re.Rune[i] && b <= re.Rune[i+1] {
+						return true
+					}
+				}
+				return false
+			}
+			for b := rune(0); b < 128; b++ {
+				keep := (b >= 'a' && b <= 'z') || (b >= 'A' && b <= 'Z') || (b >= '0' && b <= '9') || b == '_' || b == '.' || b == '-'
+				if inClass(b) == keep {
+					wrong = append(wrong, fmt.Sprintf("%q", b))
+				}
+			}
+			r.Check("graphite:deleted-class", len(wrong) == 0, cl.Pos(), fmt.Sprintf("the pattern %s deletes exactly the bytes outside [A-Za-z0-9_.-]; differing bytes: %v", pats[g.Name()], wrong))
+		}
+		r.Check("graphite:deletion-by-class", deleted == 1, nf.Pos(), fmt.Sprintf("%d deletions by a character class in normalizeMetricName (a hand-written filter is not evaluated by this rule)", deleted))
 	})
 
 	c.Rule("C17.R10", "the statsd relay withholds exactly the server's own counters: a counter is skipped if and only if its name starts with \"statsd.\" (with the dot: statsdaemon.x, statsd_exporter.y are ordinary series)", 2, func(r *Rule) {
